@@ -86,6 +86,13 @@ where
     spec fn ready(&self) -> bool {
         self.state is Some && self.state_update_receiver is Some && Self::closures_ok(self.global_fold, self.loop_condition)
     }
+    // one call ran k >= 1 rounds: one feedback per sender and round, never more rounds than remain before the bound
+    spec fn ran(o: &Self, n: &Self, k: nat) -> bool {
+        &&& k >= 1
+        &&& o.iteration_index + k <= (if o.iteration_index < o.max_iterations { o.max_iterations as int } else { o.iteration_index + 1 })
+        &&& n.feedback_senders@.len() == o.feedback_senders@.len()
+        &&& forall|j: int| 0 <= j < n.feedback_senders@.len() ==> #[trigger] n.feedback_senders@[j].log().len() == o.feedback_senders@[j].log().len() + k
+    }
     spec fn same_setup(&self, o: &Self) -> bool {
         self.num_receivers == o.num_receivers && self.max_iterations == o.max_iterations && self.initial_state == o.initial_state
         && self.coord == o.coord && self.global_fold == o.global_fold && self.loop_condition == o.loop_condition
@@ -130,6 +137,9 @@ NEXT_SPEC = r'''
             // the final state is output once; the round counter and the state restart for the next (outer) iteration
             (!old(self).flush_and_restart && r is Item) ==> final(self).flush_and_restart && final(self).iteration_index == 0
                 && final(self).state == Some(final(self).initial_state),                                                                // #obl:leader.restart_after_final_state
+            // the round counter really counts: one call runs k >= 1 rounds (one feedback per sender and round) and never more
+            // than the rounds that remain before the bound
+            (!old(self).flush_and_restart && r is Item) ==> exists|k: nat| #[trigger] Self::ran(old(self), final(self), k),   // #obl:leader.runs_at_most_the_remaining_rounds
 '''
 def build(x):
     pieces = [S.CLONE_IS_EQ, S.RUST_PANIC, PRELUDE, x.enum(FO, 'StreamElement')]
@@ -171,12 +181,19 @@ def build(x):
     nx.sub('V-SUBST', r'state_feedback\.clone\(\)', 'clone_feedback(&state_feedback)', detail='tuple .clone() -> contracted stub (equal value)', must=True)
     nx.add_spec(NEXT_SPEC)
     nx.text = '#[verifier::exec_allows_no_decreases_clause]\n' + nx.text
+    nx.insert_at_body_start('\n        let ghost mut rounds: nat = 0;')
+    nx.insert_after('self.iteration_index += 1;', '\n            proof { rounds = rounds + 1; }')
+    nx.insert_before(re.compile(r'return StreamElement::Item\(state\);'), 'proof { assert(Self::ran(old(self), self, rounds)); }\n                ')
     nx.insert_after_stmt('let state_feedback = (', '''
             // the verdict broadcast to the body replicas is Continue iff the loop goes on, with the state they must use in the next round
             assert((state_feedback.0 is Continue) == (result is None) && state_feedback.1 == self.state->0);   // #obl:leader.feedback_is_verdict_and_current_state''')
     nx.add_loop_spec(1, r'''
             invariant self.ready(), self.same_setup(old(self)), !self.flush_and_restart, !old(self).flush_and_restart,
                 self.iteration_index <= self.max_iterations, self.max_iterations < usize::MAX,
+                self.iteration_index == old(self).iteration_index + rounds,                                                   // #obl:leader.round_counter_counts_rounds
+                rounds == 0 || old(self).iteration_index + rounds < old(self).max_iterations,
+                self.feedback_senders@.len() == old(self).feedback_senders@.len(),
+                forall|j: int| 0 <= j < self.feedback_senders@.len() ==> #[trigger] self.feedback_senders@[j].log().len() == old(self).feedback_senders@[j].log().len() + rounds,
 ''')
     nx.insert_before(re.compile(r'let mut __i: usize = 0; while __i < self\.feedback_senders\.len\(\)'), 'let ghost logs0 = Seq::new(self.feedback_senders@.len(), |j: int| self.feedback_senders@[j].log());\n            let ghost me = *self;\n            ')
     nx.add_loop_spec(2, r'''
